@@ -25,6 +25,7 @@ Mk(b, incl, kinds, subs, cstr, comp) ==
      subvals |-> SubV, aval |-> AV, tval |-> TV,
      gsub |-> "none", fsub |-> "none", consts |-> <<>>, symorder |-> <<>>,
      gval |-> Q(61), gsubval |-> Q(67), gconst |-> Q(71), fsubval |-> Q(73), fconst |-> Q(79),
+     avals |-> <<Q(53), Q(89), Q(97)>>, tvals |-> <<Q(59), Q(101), Q(103)>>, alias |-> FALSE,
      qval |-> Q(83), pfull |-> FALSE, psym |-> "none", symodict |-> FALSE, rebuild |-> FALSE, implicit |-> FALSE]
 
 \* rate constants with two unique keys and explicit defaults; substitution of the first / second key
@@ -102,6 +103,13 @@ CfgAllUk2(n) == CfgAll(n) \cup CfgUk2(n)
 CfgMix(n) == CfgSym(n) \cup CfgFewBoth(n)
 CfgMixQ(n) == { cf \in CfgSym(n) : cf.subs = Uniform(n, "none") /\ cf.kinds # Uniform(n, "ma_num")
                                       /\ cf.symorder \in {subst, Rev(subst)} } \cup CfgFewCstr(n)
+\* two or more expression substitutions at once; alias keys
+CfgMultiExpr(n) == { Mk("get_odesys", incl, kinds, subs, cstr, FALSE) :
+                       incl \in BOOLEAN, kinds \in { Uniform(n, "str"), Uniform(n, "ma_uk"), Alternate(n, "ma_fk", "ma_uk") },
+                       subs \in { Uniform(n, "expr"), Alternate(n, "expr", "expruk"), Alternate(n, "expruk", "expr") },
+                       cstr \in {FALSE} }
+                   \cup { Mk("create_odesys", FALSE, Uniform(n, "str"), Uniform(n, "expr"), FALSE, FALSE) }
+CfgAlias(n) == { [cf EXCEPT !.alias = TRUE] : cf \in CfgFew(n) \cup CfgSym(n) }
 \* complete caller-made parameter tables together with overrides (create_odesys)
 CfgPFull(n) == { [Mk("create_odesys", FALSE, Uniform(n, "str"), subs, cstr, FALSE)
                     EXCEPT !.psym = ps, !.pfull = TRUE] :
@@ -120,6 +128,9 @@ CfgZeroQ(n) == { cf \in CfgZero(n) : cf.subs \in { Uniform(n, "none"), Uniform(n
                                                         Uniform(n, "ma_pk"), Uniform(n, "ma_num") }
                                       /\ cf.consts \in { <<>>, <<"g", "feedratio">> } }
 \* quick tier: several families in one run (fewer TLC launches); which family applies depends on the state
-CfgMainQ(n) == IF hist = <<>> THEN CfgAll(n) \cup CfgUk2(n) \cup CfgFormsQ(n) \cup CfgPFull(n) ELSE CfgThree(n)
+CfgAliasQ(n) == { cf \in CfgAlias(n) : cf.symorder \in {<<>>, Rev(subst)} /\ cf.subs = Uniform(n, "none") }
+CfgMainQ(n) == IF hist = <<>> THEN CfgAll(n) \cup CfgUk2(n) \cup CfgFormsQ(n) \cup CfgPFull(n) \cup CfgMultiExpr(n) \cup CfgAliasQ(n)
+               ELSE CfgThree(n)
+CfgExtraT(n) == CfgMultiExpr(n) \cup CfgAlias(n) \cup CfgPFull(n)
 CfgFeedsQ(n) == CfgMixQ(n) \cup (IF feed.usermap THEN {} ELSE CfgConstQ(n))
 =============================================================================
